@@ -23,7 +23,7 @@ RULE = ("cases: (a) ill-defined models by construction: self reference, cycles o
         "by identity, by equal copy and by equal definition through another class (Any(a,b) next to Xor(a,b)). non-trivial: every "
         "case is; distinct by (class, canonical shape digest)")
 BUDGET = {"quick": (12, 500, 90), "thorough": (16, 4000, 1200)}
-ILL = ["self-ref", "cycle", "dup-child", "dup-child-ref-leaf", "generated-id-collision", "compound-value-twin", "leaf-bounds", "leaf-bounds-twin", "compound-sign", "compound-value",
+ILL = ["self-ref", "cycle", "cycle-cross-branch", "deep-ambivalence", "dup-child", "dup-child-ref-leaf", "generated-id-collision", "compound-value-twin", "leaf-bounds", "leaf-bounds-twin", "compound-sign", "compound-value",
        "compound-children", "compound-children-twin", "leaf-vs-compound"]
 PYTEST = True     # thorough tier also runs the repository's own tests under these monitors
 MANDATORY = ["judged:accepted=>well-defined", "judged:tree=>accepted", "judged:sharing=>accepted", "contract:AtLeast.errors"] + \
@@ -133,6 +133,24 @@ def build_ill(cls, rng):
             c = pg.Any("a", "b", variable="C")
             return pg.AtLeast(1, [c, c] + extra, variable="A")
         return pg.All(pg.AtLeast(2, ["p", "p"] + extra, variable="B"), "v", variable="A")
+    if cls == "cycle-cross-branch":
+        # the cycle closes between siblings (no node refers to one of its own ancestors)
+        n = rng.randint(2, 4)
+        names = ["B%d" % i for i in range(n)]
+        nodes = [rng.choice([pg.Any, pg.All])("v%d" % i, names[(i + 1) % n], variable=names[i]) for i in range(n)]
+        top = pg.All(*nodes, variable="R") if rng.random() < 0.6 else pg.Any(pg.All(*nodes[:n // 2 + 1], variable="L"), pg.All(*nodes[n // 2 + 1:], "w", variable="M"), variable="R")
+        return top
+    if cls == "deep-ambivalence":
+        # two sub-propositions with the same id AND the same (sign, value, child ids) under different parents; they differ one level further down
+        r = rng.random()
+        b1, b2 = rng.choice([((0, 1), (-3, 3)), ((0, 3), (1, 2)), ((0, 1), (0, 2))])
+        if r < 0.35:
+            mk = lambda b: pg.All(puan.variable("x", b), "y", variable="B")
+        elif r < 0.7:
+            mk = lambda b: pg.Any(pg.All("a", "b" if b == b1 else "c", variable="C"), "y", variable="B")
+        else:
+            mk = lambda b: pg.Any(pg.Any(puan.variable("x", b), "y"), "p")          # no explicit id anywhere
+        return pg.All(pg.All(mk(b1), "p1", variable="P"), pg.All(mk(b2), "q1", variable="Q"), variable="M")
     if cls == "dup-child-ref-leaf":
         # a node lists a sub-proposition and a leaf carrying the same id (and bounds) side by side
         r = rng.random()
